@@ -107,3 +107,7 @@ def run(ctx):
     ctx.guard(c12.r12_1)
     ctx.guard(c12.r12_2)
     ctx.guard(c12.ik.rule_tiling, "R12.6")
+    # the forward grid is accumulated upwards from ts[0], the reversed one from -ts[-1]: they agree to the rounding of the
+    # *time* dtype, so a list / tuple `ts` must be given the state's dtype (float64 states on a float32 grid reconstruct
+    # only to 1e-3)
+    ctx.guard(c12.r12_5)
